@@ -152,11 +152,12 @@ class ExpF(Fn):
             g = (lambda x: mp.exp(k * x) * mp.sin(w * x + ph)) if d['k'][0] else (lambda x: mp.sin(w * x + ph))
         return g if one else (lambda x: ev(x) * g(x))
 
-    def _dn(self, rmp, x0, n):
-        """n-th derivative of P(x) exp(z x + i phi) at x0 (complex, reference)"""
+    def _dn(self, rmp, x0, n, conj=False):
+        """n-th derivative of P(x) exp(z x + i phi) at x0 (complex, reference); conj: z = k - i w, phase -phi"""
         d = self.d
-        z = rmp.mpc(Q.rq(rmp, Q.dy(d['k'])), Q.rq(rmp, Q.dy(d['w'])) if d['T'] != '1' else 0)
-        ph = Q.rq(rmp, Q.dy(d['phi'])) if d['T'] != '1' else rmp.mpf(0)
+        sg = -1 if conj else 1
+        z = rmp.mpc(Q.rq(rmp, Q.dy(d['k'])), sg * Q.rq(rmp, Q.dy(d['w'])) if d['T'] != '1' else 0)
+        ph = sg * Q.rq(rmp, Q.dy(d['phi'])) if d['T'] != '1' else rmp.mpf(0)
         x = Q.rc(rmp, x0)
         cs = [Q.dy(c) for c in d['P']]
         ders = [cs]
@@ -176,10 +177,12 @@ class ExpF(Fn):
         real = x0[1] == 0
 
         def fn(rmp):
-            v = self._dn(rmp, x0, n)
-            if T in ('1', 'cos'):
-                return v.real if real else v
-            return v.imag
+            a = self._dn(rmp, x0, n)
+            if T == '1':
+                return a.real if real else a
+            b = self._dn(rmp, x0, n, conj=True)       # cos t = (e^{it} + e^{-it})/2, sin t = (e^{it} - e^{-it})/(2i): valid for complex x
+            v = (a + b) / 2 if T == 'cos' else (a - b) / rmp.mpc(0, 2)
+            return v.real if real else v
         return Q.RefOracle(fn)
 
     def deriv(self, x0, n):
@@ -276,6 +279,12 @@ def mech_key(desc):
     k = desc['kind']
     if k in ('diff', 'diffs', 'taylor', 'diffun', 'partial'):
         opts = desc.get('opts', {})
+        if opts.get('relative') and 'h' not in opts and 'x' in desc:
+            x0 = xpt(desc['x'])
+            m = math.sqrt(float(Q.cabs2(x0))) if Q.cabs2(x0) else 0.0
+            if m and not (0.5 <= m < 1):
+                # path key: hsteps() took the 'relative' branch with a non-zero magnitude correction
+                return 'C28/hsteps/relative-step-scaled-inversely/%s' % ('large-x' if m >= 1 else 'tiny-x')
         o = '+'.join(sorted(n for n in opts if n not in ('radius',))) or 'default'
         m = opts.get('method', 'step')
         return 'C28/%s/%s/%s/%s' % (k, m, o if m == 'step' else 'quad', desc['f']['fam'] if 'f' in desc else 'nd')
@@ -294,7 +303,7 @@ def _opts(mp, opts):
     return kw
 
 
-def envelope_1d(fn, x0, n, opts, p, o, nxt):
+def envelope_1d(fn, x0, n, opts, p, o, nxt, kind='diff'):
     """a-priori predicate for one derivative of order n at x0 with the given options"""
     why = []
     d = fn.d
@@ -312,12 +321,18 @@ def envelope_1d(fn, x0, n, opts, p, o, nxt):
             central = not opts.get('direction')
             exact = deg is not None and deg <= n + (1 if central else 0)
             small = central and h <= F(2) ** (-(p // 2 + 12))
+            if kind in ('diffs', 'taylor'):
+                # one stencil serves all orders: the k-th difference is centred up to (n_max) h away from x
+                exact = deg is not None and deg <= n
+                small = h <= F(2) ** (-(p + 6))
             if not (exact or small):
                 why.append('user step h too large for a non-exact difference formula')
             if h < F(2) ** (-(p + 16)):
                 why.append('user step h below the default step')
         if opts.get('addprec', 10) < 5:
             why.append('addprec below 5')
+        if opts.get('relative') and x0 == (F(0), F(0)):
+            why.append('relative step at x = 0')
         dr = opts.get('direction')
         if isinstance(dr, list) and deg is None and d['fam'] == 'ratl':
             why.append('complex direction on a rational function')
@@ -393,7 +408,7 @@ def run_diff(mp, rec, desc):
         mp.prec = old
     for k, v in res:
         o, nxt = fn.deriv(x0, k)
-        inside, why = envelope_1d(fn, x0, k, opts, p, o, nxt)
+        inside, why = envelope_1d(fn, x0, k, opts, p, o, nxt, kind)
         if kind == 'diffs' and opts.get('method', 'step') == 'step' and inside:
             # diffs evaluates all orders from one stencil of n+1 points: the k-th difference is centred up to n h away from x
             pass
@@ -708,14 +723,17 @@ def gen_opts(r, name, p, n, fn):
 
 
 def gen_main(r, i, p):
-    entry = ENTRY[i % len(ENTRY)]
-    fam = FAMS[(i // len(ENTRY)) % len(FAMS)]
-    optn = OPTSETS[(i // 3) % len(OPTSETS)]
-    xk = XK[(i // 5) % len(XK)]
+    # the cell is a seed-independent function of the case index (decorrelated dimensions); the seed only varies the parameters
+    import random
+    cr = random.Random('C28-cell-%d' % i)
+    entry = cr.choice(ENTRY)
+    fam = cr.choice(FAMS)
+    optn = cr.choice(OPTSETS)
+    xk = cr.choice(XK)
     d = gen_fn(r, fam)
     if fam == 'ratl' and xk in ('large',):
         xk = 'mid'
-    n = [0, 1, 1, 2, 2, 3, 4, 5, 6, 8, 10][(i // 7) % 11]
+    n = cr.choice([0, 1, 1, 2, 2, 3, 4, 5, 6, 8, 10])
     if xk == 'large' and d['fam'] == 'poly':
         d['P'] = d['P'][:6]
     if xk == 'large' and d['fam'] == 'exp':
